@@ -604,7 +604,7 @@ func oracleC07ios(c *Case) Verdict {
 }
 
 func init() {
-	register("C02", "ios", oracleC02ios)
+	register("C02", "ios", withRefusal(oracleC02ios, oracleC08ios))
 	register("C08", "ios", oracleC08ios)
 	register("C10", "ios", oracleC10ios)
 	register("C14", "ios", oracleC14ios)
